@@ -13,7 +13,7 @@ REQUIRED_THEOREMS = ['OpusProps.C09SilkPlc.' + t for t in (
     'glue_identity_when_not_lost', 'glue_identity_when_quieter', 'glue_flags', 'glue_output_int16', 'glue_damped_when_gain_le_one',
     'glue_gain_range', 'glue_gain_above_one_counterexample', 'conceal_gain_decreasing', 'conceal_output_int16',
     'conceal_total_partial', 'ltp_limit_counterexample', 'exDec_ok', 'plc_inv_reset', 'plc_inv_frame', 'plc_inv_history',
-    'conceal_gain_after_n', 'cng_output_int16',
+    'conceal_gain_after_n', 'cng_output_int16', 'conceal_ltp_reads_in_bounds',
 )]
 UNPROVED = [
     'conceal_total at full strength: in-bounds-ness of every array read of the value model (the model reads with a total accessor; '
